@@ -42,7 +42,7 @@ impl Sub for FromSequences {
         "0..20 sequences of equal or unequal lengths (0..30), both alphabets; CountMatrix::from_sequences must give the occurrence counts and sequence count, or InvalidData for unequal lengths; non-trivial = >= 2 sequences of length >= 2"
     }
     fn cases(&self, tier: Tier) -> u64 {
-        tier.pick(10_000, 300_000)
+        tier.pick(30_000, 600_000)
     }
     fn strategy(&self, _tier: Tier) -> BoxedStrategy<SeqsCase> {
         abc_strategy()
@@ -280,7 +280,7 @@ impl Sub for Chain {
         "count matrix (M 0..30, cells 0..1000, both alphabets) x pseudocounts (scalar or per-symbol) x background (uniform / from counts / dyadic, zero entries, non-zero wildcard) x second background x base {2,10,e,3.7,...}; to_freq, to_weight, to_scoring (one-step and two-step), to_scoring_with_base, rescale, min_score/max_score compared with the f64 definitions (tolerance 1e-5 relative); rows with zero total are excluded; non-trivial = M >= 2 and (non-uniform background or per-symbol pseudocounts or base != 2)"
     }
     fn cases(&self, tier: Tier) -> u64 {
-        tier.pick(12_000, 500_000)
+        tier.pick(60_000, 1_500_000)
     }
     fn strategy(&self, _tier: Tier) -> BoxedStrategy<ChainCase> {
         abc_strategy()
@@ -357,7 +357,7 @@ impl Sub for Rejections {
         "Background::new on valid dyadic frequencies (must be accepted) and on frequencies made invalid by a negative entry, an entry > 1, NaN, or a sum off by > 1e-3 (must be rejected); Background::from_counts incl. all-zero counts; FrequencyMatrix::new on rows summing to 1 within 0.005 (accepted) or off by > 0.02 (rejected); non-trivial = a rejection path is expected"
     }
     fn cases(&self, tier: Tier) -> u64 {
-        tier.pick(10_000, 300_000)
+        tier.pick(30_000, 600_000)
     }
     fn strategy(&self, _tier: Tier) -> BoxedStrategy<RejectCase> {
         abc_strategy()
